@@ -507,6 +507,8 @@ class ModuleEmitter:
                 attrs["enum_base_type"] = field.enum_name
             if field.enum_variants is not None:
                 for var_val, var_name in field.enum_variants.items():
+                    if field.signed and var_val < 0:
+                        var_val += 1 << len(signal) # two's complement
                     attrs["enum_value_" + to_binary(var_val, len(signal))] = var_name
 
             if name in self.module.ports:
@@ -696,6 +698,8 @@ class ModuleEmitter:
                     attrs["enum_base_type"] = field.enum_name
                 if field.enum_variants is not None:
                     for var_val, var_name in field.enum_variants.items():
+                        if field.signed and var_val < 0:
+                            var_val += 1 << len(field.value) # two's complement
                         attrs["enum_value_" + to_binary(var_val, len(field.value))] = var_name
                 wire = self.builder.wire(width=len(field.value), signed=field.signed, attrs=attrs,
                                          name="".join(name_parts), src_loc=signal.src_loc)
